@@ -59,7 +59,8 @@ impl RecvRateSet {
             is_initial: false
         });
 
-        self.entries.retain(|e| now_ms - e.timestamp_ms < 2 * rtt_ms);
+        // The sample just added is always kept, even if the RTT estimate rounds to zero
+        self.entries.retain(|e| now_ms - e.timestamp_ms < (2 * rtt_ms).max(1));
 
         return self.max();
     }
